@@ -2,7 +2,7 @@
    Only the property theorems, each closed by [exact] and followed by Print Assumptions. *)
 From Coq Require Import List ZArith.
 From MirV Require Import C08.CLayout C08.SysVLayout C08.CClassify C08.SysVClassify C08.StepProofs
-  C08.LayoutProofs C08.ClassifyProofs C08.DisjointProofs C08.TotalProofs C08.SpanClassify.
+  C08.LayoutProofs C08.ClassifyProofs C08.DisjointProofs C08.TotalProofs C08.SpanClassify C08.RetProofs.
 Import ListNotations.
 Local Open Scope Z_scope.
 
@@ -213,3 +213,39 @@ Proof.
   repeat (split; [assumption|]). rewrite H5, H6, H7. split; [discriminate | reflexivity].
 Qed.
 Print Assumptions classify_head_eq_gcc_refuted.
+
+(* ------------------------------------------------------------------ round 3: the bytes of a returned aggregate.
+   A struct/union returned in registers is moved piece by piece (target_add_ret_ops in a c2mir callee,
+   target_gen_post_call_res_code in a c2mir caller): piece i of process_ret_type with a move of its MIR type at byte
+   offset 8 * i ([ret_pieces]); update_last_qword_type narrows the type of a single piece by sizeof. *)
+
+(* every byte of the aggregate is transferred by one of the accesses - any well-formed struct/union, any size *)
+Theorem ret_bytes_cover : forall t ps,
+  wf_ty t = true -> is_agg t = true -> ret_pieces t = Some ps ->
+  forall b, 0 <= b < type_size (c2m_layout t) ->
+  exists o m, In (o, m) ps /\ o <= b < o + mbytes m.
+Proof. exact ret_bytes_cover_lemma. Qed.
+Print Assumptions ret_bytes_cover.
+
+(* the access type of a single-piece return per sizeof: INTEGER class - the least power of two >= sizeof (1 -> I8,
+   2 -> I16, 3..4 -> I32, 5..8 -> I64); SSE class - F up to 4 bytes, D above *)
+Theorem ret_tail_access : forall t m,
+  wf_ty t = true -> is_agg t = true -> process_ret_type t = Some [m] -> m <> MLD ->
+  mbytes m = access_bytes (is_int_mtype m) (type_size (c2m_layout t)).
+Proof. exact ret_tail_access_lemma. Qed.
+Print Assumptions ret_tail_access.
+
+(* the accesses stay inside the eightbytes of the aggregate (they may reach beyond sizeof by up to 7 bytes) *)
+Theorem ret_pieces_within : forall t ps o m,
+  wf_ty t = true -> is_agg t = true -> ret_pieces t = Some ps -> In (o, m) ps -> m <> MLD ->
+  0 <= o /\ o + mbytes m <= 8 * ((type_size (c2m_layout t) + 7) / 8).
+Proof. exact ret_pieces_within_lemma. Qed.
+Print Assumptions ret_pieces_within.
+
+(* non-vacuity and the boundary: struct { char c[3]; } is one I32 access, struct { char c[5]; } one I64,
+   struct { float f[3]; } D at 0 and D at 8 *)
+Example ret_pieces_boundary :
+  wf_ty c08_char3 = true /\ is_agg c08_char3 = true /\
+  ret_pieces c08_char3 = Some [(0, MI32)] /\ ret_pieces c08_char5 = Some [(0, MI64)] /\
+  ret_pieces c08_float3 = Some [(0, MD); (8, MD)].
+Proof. exact ret_pieces_examples. Qed.
